@@ -82,6 +82,9 @@ var errValsMu sync.Mutex
 
 func tagFor(l lab) string {
 	parts := []string{l.Name}
+	if l.Name == "äpfel" && l.Ty%2 == 0 {
+		parts[0] = "Äpfel" // names are folded on the declaring side too
+	}
 	if l.Name == "" {
 		parts = append(parts, "typeOnly")
 	}
@@ -215,7 +218,8 @@ func (f *fnSpec) runInner(got []reflect.Value) (outs []reflect.Value, nilPtr boo
 			}
 			f.sc.errVals[eid] = failure
 			errValsMu.Unlock()
-			return outs, false, failure
+			// the idiomatic `return nil, err` of a function whose results are a pointer to a struct
+			return outs, f.OForm == "ptr" && f.Form != "built" && (eid+f.ID)%3 != 0, failure
 		}
 	}
 	if f.Script == "identity" {
@@ -653,6 +657,12 @@ func (sc *scenario) mkArg(o optSpecC) am.Arg {
 		return am.ConverterGen(nil) // a nil generator function
 	case "loggernil":
 		return am.Logger(nil)
+	case "filterjunk":
+		// filters have no effect outside Redefine: one that admits nothing, for inputs and for outputs
+		if o.Vid%2 == 0 {
+			return am.FilterOutput(am.FilterOr())
+		}
+		return am.FilterInput(am.FilterOr())
 	case "namednil":
 		return am.Named(o.Name, nil)
 	case "convnil":
@@ -773,7 +783,7 @@ func (o optSpecC) line() string {
 		return fmt.Sprintf("opt gen rule %d ty=%d name=%s fid=%d mode=%s", o.Vid, o.Ty, n, o.Fids[0], o.Sub)
 	case "gennil":
 		return "opt gen nil"
-	case "gennilfunc", "loggernil":
+	case "gennilfunc", "loggernil", "filterjunk":
 		return "opt other " + o.Kind
 	case "conv", "convfunc":
 		var s []string
